@@ -9,7 +9,28 @@ use crate::refmodel::container::*;
 use crate::runner::{Ctx, SimpleProp, Tier};
 use crate::scenario::{Scenario, Violation};
 
+/// An input longer than the 8 MiB dictionary the encoder announces (so that this
+/// library's own decoder wraps its window on it), described by three numbers.
+fn gen_huge(t: &mut Tape) -> Scenario {
+    let mut sc = Scenario::new("c04");
+    sc.set_i("huge", 1);
+    sc.set_i("plain_class", [2u64, 2, 5, 6, 3][t.below(5) as usize]);
+    sc.set_i("plain_seed", t.u64());
+    let len = (8u64 << 20) + [1u64, 2, 4096, 100_000][t.below(4) as usize] + t.below(3);
+    sc.set_i("plain_len", len);
+    sc.set_i("ep", EP_C_LZMA);
+    sc.set_i("enc_mode", t.below(3));
+    sc.set_i("enc_size", len);
+    sc.set_i("rk", [RK_SLICE, RK_BUFREADER][t.below(2) as usize]);
+    sc.set_i("bufcap", t.range(4096, 70_000));
+    sc.note = format!("{} bytes of plaintext (class {}): longer than the 8 MiB dictionary", len, sc.i("plain_class"));
+    sc
+}
+
 fn gen(t: &mut Tape, tier: Tier) -> Scenario {
+    if t.below(if tier == Tier::Thorough { 20_000 } else { 4_000 }) == 0 {
+        return gen_huge(t);
+    }
     let mut sc = Scenario::new("c04");
     let big_every = if tier == Tier::Thorough { 12 } else { 60 };
     let len: usize = if t.below(big_every) == 0 {
@@ -60,7 +81,14 @@ fn gen(t: &mut Tape, tier: Tier) -> Scenario {
 
 fn exec(sc: &Scenario, ctx: &mut Ctx) -> Vec<Violation> {
     let ep = sc.i("ep");
-    let plain = sc.b("input");
+    let huge_plain;
+    let plain: &[u8] = if sc.i("huge") == 1 {
+        ctx.stats.hit("arm.input_longer_than_the_8MiB_dictionary");
+        huge_plain = gen::plain_from(sc.i("plain_class"), sc.i("plain_seed"), sc.i("plain_len") as usize);
+        &huge_plain
+    } else {
+        sc.b("input")
+    };
     let mode = sc.i("enc_mode");
     // the sink may accept only part of each write (benign short writes, no faults)
     let (mut sink, sink_st) = SimSink::new(None, sc.l("sink_script"), Faults::none(), Faults::none());
@@ -214,7 +242,7 @@ fn wrap_lzma2_in_xz_23(payload: &[u8], content: &[u8]) -> Vec<u8> {
 pub static C04: SimpleProp = SimpleProp {
     id: "C04",
     level: "exploration",
-    rule: "one evaluation = one compression into a sink that accepts whole or (a third of the runs) scripted partial writes (lzma_compress with each of the 3 header options, lzma2_compress, xz_compress) of a plaintext (lengths 0, 1, 65535, 65536, 65537, 2-3 x 64 KiB, small random; content: constant 0x00/0xFF, random, sparse, sawtooth, long runs with surprises, text-like, and inputs constructed by a guided search so that a carry resolves >= 4 pending 0xFF bytes in the range encoder) read through scripted short reads (1 byte, fixed k, random) or a real BufReader of capacity 1..70000; the output must decode to the input with (a) lzma-rs under the matching option, consuming every emitted byte, (b) the strict reference decoder/parser, (c) liblzma (LZMA2 wrapped into .xz by the reference writer; the header-less layout excepted); non-trivial = non-empty plaintext; distinct by (scenario, event log) hash",
+    rule: "one evaluation = one compression into a sink that accepts whole or (a third of the runs) scripted partial writes (lzma_compress with each of the 3 header options, lzma2_compress, xz_compress) of a plaintext (lengths 0, 1, 65535, 65536, 65537, 2-3 x 64 KiB, small random, and now and then 8 MiB + a little, i.e. longer than the dictionary the encoder announces; content: constant 0x00/0xFF, random, sparse, sawtooth, long runs with surprises, text-like, and inputs constructed by a guided search so that a carry resolves >= 4 pending 0xFF bytes in the range encoder) read through scripted short reads (1 byte, fixed k, random) or a real BufReader of capacity 1..70000; the output must decode to the input with (a) lzma-rs under the matching option, consuming every emitted byte, (b) the strict reference decoder/parser, (c) liblzma (LZMA2 wrapped into .xz by the reference writer; the header-less layout excepted); non-trivial = non-empty plaintext; distinct by (scenario, event log) hash",
     runs_quick: 40_000,
     runs_thorough: 4_000_000,
     both_profiles: false,
